@@ -3,12 +3,19 @@
 import json, os
 
 ENGINE = "gosym"
+COMMON_NOTE = "Bounds are those stated per harness in /verif/harness (input sizes, Unwind caps, case splits); nothing is claimed outside them. Trusted: go/ssa lowering (x/tools v0.50.0), the engine's instruction semantics and stdlib models (DESIGN.md 2.3), z3 5.1.0 (cvc5 1.0 fallback). Every counterexample is replayed natively (go test -overlay) before it is reported; up to 32 explored paths per run are cross-validated against the native build."
+TECH = "bounded symbolic execution of the real go/ssa code + SMT (z3/cvc5)"
 claimed = {
- "C12": dict(
-   text="Bounded symbolic model checking of the real charcode code: NewCodec/newTree/linearize/Decode/AppendCode/CodeSpaceRange are executed symbolically from go/ssa with range bounds and probe bytes as SMT variables; every feasible path's assertions (valid iff in a range, consumed as ISO 32000-2 9.7.6.3 prescribes, decode/encode identities, reported ranges admit the same codes) are decided by z3 for all byte values within the bounds (<=2 ranges of <=2 bytes fully symbolic; 7 named sets incl. UTF-8 and mixed 1-4 byte sets with 4 symbolic probe bytes).",
-   note="Bounds: see harness/font/charcode; stdlib models (maps/slices/sort interpreted from source); go/ssa lowering; z3 4.8.12. Counterexamples are replayed natively before being reported.",
-   technique="bounded symbolic execution of go/ssa + SMT (z3), spec-model differential"),
+ "C01": dict(text="Format, doFormat, formatName/String/Dict and the scanner (ReadObject, ReadName, ReadString, ReadHexString, ReadNumber, ReadArray, ReadDict) are executed symbolically: every name and string of <=3 (thorough 4) arbitrary bytes, every int64 (decimal digits modelled by a division chain that the real strconv.ParseInt re-parses), every reference, a boundary list of reals, and every ordered pair of token kinds (thorough: nested composites) inside arrays and dictionaries, plain and pretty; the solver decides parse(format(x)) == x, full consumption and determinism on every path."),
+ "C02": dict(text="Whole-program harness on the real Writer and Reader: solver-chosen write programs (Put / Alloc-only / WriteCompressed / OpenStream with 8 filter chains, 10 body shapes incl. endstream/EOL edges and the 1024-byte buffering threshold, Put while a stream is open) x versions x HumanReadable x seekable/non-seekable sink with symbolic payload bytes; NewReader/Get/DecodeStream must return equal objects, byte-identical stream data, null for unwritten references and the same version/ID/Info/Catalog. Second harness: Put never modifies the caller's strings, with and without encryption for every version (found the RC4 in-place defect, fixed)."),
+ "C06": dict(text="decode(encode(x)) == x decided for all inputs within the bounds for ASCII85 (<=5/9 bytes, all write splits, line widths, read buffer and source chunk sizes; found the lost-tail defect, fixed), ASCIIHex, RunLength (plus 127..257-byte runs with symbolic content), PNG/TIFF predictors (all predictors, 5 bit depths, 1-3 colours, whole rows of symbolic bytes), LZW and predictor 15 (inputs case-split over a 3-letter alphabet; width changes with long concrete inputs), and Info -> MakeFilter parameter survival for Flate/LZW/Compress/CCITTFax with fully symbolic integer fields."),
+ "C07": dict(text="Differential harnesses with both sides executed symbolically: ASCII85 vs encoding/ascii85, LZW vs x/image/tiff/lzw (EarlyChange=1) and compress/lzw (EarlyChange=0), RunLength/ASCIIHex/PNG/TIFF predictors vs reference codecs written from the specifications in the harness; both directions."),
+ "C08": dict(text="Decoders run on arbitrary symbolic bodies (ASCII85, ASCIIHex, RunLength, LZW, predictors): no panic, termination within the stated read count, output bounds, agreement with reference decoders on well-formed input; predict.Params.Validate accepts no parameter set (any int magnitudes) with row sizes outside the cap; MakeFilter total on every filter name and parameter dictionary of any value type/magnitude and its results re-validate; GetFilters enforces chain cap and Crypt position."),
+ "C12": dict(text="NewCodec/newTree/linearize/Decode/AppendCode/CodeSpaceRange executed symbolically with range bounds and probe bytes as SMT variables; valid iff in a range, consumed as ISO 32000-2 9.7.6.3 prescribes, decode/encode identities and equality of the reported range set are decided by the solver (<=2 ranges of <=2 bytes fully symbolic, thorough 3 ranges; 7 named sets incl. UTF-8 and mixed 1-4 byte sets with 4 symbolic probe bytes). Found the descriptor-deduplication defect (fixed)."),
 }
+for k in claimed:
+    claimed[k].setdefault("note", COMMON_NOTE)
+    claimed[k].setdefault("technique", TECH)
 not_yet = {}
 ids = ["C%02d" % i for i in range(1, 21)]
 checks = []
